@@ -395,11 +395,14 @@ ASSUMPTIONS: set = set()
 
 # work budget (term products); reset by callers
 _WORK = [0, 10**9]
+_DEADLINE = [None]
+import time as _time
 
 
-def set_budget(n):
+def set_budget(n, seconds=None):
     _WORK[0] = 0
     _WORK[1] = n
+    _DEADLINE[0] = (_time.time() + seconds) if seconds else None
 
 
 def work_done():
@@ -410,6 +413,8 @@ def _tick(n):
     _WORK[0] += n
     if _WORK[0] > _WORK[1]:
         raise Budget(f"algebra work budget exceeded ({_WORK[1]} term products)")
+    if _DEADLINE[0] is not None and _time.time() > _DEADLINE[0]:
+        raise Budget("algebra time budget exceeded")
 
 
 def lift(x):
@@ -601,6 +606,7 @@ def _again(e):
 
 
 def content(p):
+    _tick(len(p.t))
     """Signed content of a polynomial: p / content(p) is primitive with a positive leading term."""
     g = 0
     l = 1
@@ -1209,7 +1215,7 @@ def evalf(e, env=None, seed=0):
             elif k in ("sym", "psym"):
                 rnd = random.Random(hash((seed, a.id)))
                 v = rnd.uniform(0.3, 1.7)
-                if k == "sym" and rnd.random() < 0.3:
+                if k == "sym" and rnd.random() < 0.5:
                     v = -v
             elif k == "let":
                 v = val(a.defn)
@@ -1294,7 +1300,7 @@ def decide(a, b, budget=1_000_000):
         return "equal", None
     seps = []
     onesided = []
-    for s in (1, 2, 3):
+    for s in (1, 2, 3, 4, 5, 6):
         va, vb = evalf(a, seed=s), evalf(b, seed=s)
         if (va != va) != (vb != vb):
             onesided.append({"seed": s, "lhs": va, "rhs": vb, "note": "defined on one side only"})
@@ -1302,12 +1308,13 @@ def decide(a, b, budget=1_000_000):
             continue
         scale = max(1.0, abs(va), abs(vb))
         seps.append((abs(va - vb) > 1e-6 * scale, {"seed": s, "lhs": va, "rhs": vb}))
-    if seps and all(x for x, _ in seps):
-        return "differ", seps[0][1]
+    if seps and sum(1 for x, _ in seps if x) >= max(2, (len(seps) + 1) // 2):
+        return "differ", [w for x, w in seps if x][0]
     if len(onesided) >= 2 and not any(not x for x, _ in seps):
         return "differ", onesided[0]
     saved = list(_WORK)
-    set_budget(budget)
+    saved_deadline = _DEADLINE[0]
+    set_budget(budget, seconds=30)
     try:
         if is_zero(d):
             return "equal", None
@@ -1315,6 +1322,7 @@ def decide(a, b, budget=1_000_000):
         return "unknown", str(ex)
     finally:
         _WORK[0], _WORK[1] = saved[0] + _WORK[0], saved[1]
+        _DEADLINE[0] = saved_deadline
     if seps and any(x for x, _ in seps):
         return "differ", [w for x, w in seps if x][0]
     return "unknown", "normal forms differ after unfolding but no numeric witness separates them"
